@@ -1009,7 +1009,7 @@ def _run(chk, wd, proved):
     distinct = set()
     total_nodes = 0
     # ---- 1. exhaustive prefix trees
-    depth_for = (lambda mb: 5 if mb <= 3 else 4) if chk.tier == 'quick' else (lambda mb: 6 if mb <= 4 else 5)
+    depth_for = (lambda mb: 5 if mb <= 2 else 4) if chk.tier == 'quick' else (lambda mb: 6 if mb <= 4 else 5)
     tcases, tmeta = [], []
     jobs = []
     for mb in range(0, 7):
@@ -1180,7 +1180,7 @@ def _run(chk, wd, proved):
     chk.note('t_dispatcher_done=%.1f' % (__import__('time').time() - chk.t0))
     # ---- 5. reopen / clear / move-away in every phase of a CAPTURING dispatcher (log file + capture_maxbytes > 0)
     ccases, cmeta = [], []
-    confs = [(0, 0), (1000, 1), (64, 2)] if chk.tier == 'quick' else [(0, 0), (0, 2), (1000, 0), (1000, 1), (64, 1), (64, 2), (90, 3)]
+    confs = [(0, 0), (64, 2)] if chk.tier == 'quick' else [(0, 0), (0, 2), (1000, 0), (1000, 1), (64, 1), (64, 2), (90, 3)]
     n_scripts = 0
     for (mb, bk) in confs:
         for phase in PHASES:
@@ -1258,7 +1258,7 @@ def _run(chk, wd, proved):
                    'through ServerOptions.make_logger and POutputDispatcher; %d scripts on the activity logger with 1-3 handlers '
                    '(stream, file, rotating, syslog) in every order: clearLog RPC / reopenlogs, also after the files were moved '
                    'away; %d clear/reopen scripts around a missing log directory (handler and dispatcher/RPC level); distinct = distinct prefixes + distinct (op kind, file '
-                   'sizes) random histories' % ('5 (4 for maxbytes > 3)' if chk.tier == 'quick' else '6 (5 for maxbytes > 4)',
+                   'sizes) random histories' % ('5 (4 for maxbytes > 2)' if chk.tier == 'quick' else '6 (5 for maxbytes > 4)',
                                          total_nodes, len(hcases), len(mcases), len(dcases) + len(m2), n_scripts, n_conf, n_act_scripts, n_outage))
     cov['samples'] = [_j({'maxbytes': m[0], 'backups': m[1], 'ops': m[2], 'observed': m[3]}) for m in hmeta[3:5]]
 
